@@ -167,11 +167,8 @@ func jsonFileScenario(r *Run) {
 	oc := RunGatedPool(r, node, workers, ctl, produce, func(execution.ProduceContext, execution.MetadataMessage) error { return nil }, choose, 100000)
 	r.Sched(strings.Join(schedule, ","))
 	r.AddEvents(len(got))
-	for k, v := range disk.Fired {
-		for i := 0; i < v; i++ {
-			r.Fault(k)
-		}
-	}
+	r.FaultN("short_read", disk.FiredCount("short_read"))
+	r.FaultN("read_error", disk.FiredCount("read_error"))
 	if gateWorkers && len(schedule) > 1 {
 		r.Fault("worker_reordering_controlled")
 	}
@@ -269,11 +266,8 @@ func runFileSource(r *Run, creator fileCreator, path string, options map[string]
 	simConfig.Files.BufferSizeBytes = bufSize
 	defer func() { simConfig.Files.BufferSizeBytes = 4096 * 1024 }()
 	defer func() {
-		for k, v := range disk.Fired {
-			for i := 0; i < v; i++ {
-				r.Fault(k)
-			}
-		}
+		r.FaultN("short_read", disk.FiredCount("short_read"))
+		r.FaultN("read_error", disk.FiredCount("read_error"))
 	}()
 	ctx := bubbleCtx()
 	impl, schema, err := creator(ctx, path, options)
